@@ -1,5 +1,6 @@
 import DriverLib.Basic
 import DriverLib.C03
+import DriverLib.C05
 import QV.Model.CDStep
 open Lean Drv QV QV.Grads QV.CDStep
 
@@ -42,9 +43,136 @@ def stepOp (j : Json) : R Json := do
     return Json.mkObj [("grads", .arr #[slicesOut (prbmParamGrads r.1.1), slicesOut (prbmParamGrads r.1.2)]),
       ("after", .arr #[fListOut r.2.1.flatten, fListOut r.2.2.flatten])]
 
+/-- op `c06.cdstep`: one training step FROM THE NEGATIVE BATCH: the model's `cdStepPos/Cplx/DM` program (chain =
+`gibbsStepsB k neg`) replayed (`Prog.run`) on the recorded bernoulli draws.
+in: as `c06.step` but `neg` (bit rows), `k`, `draws` (flat, call order) instead of `vk`.
+out: `vk` (chain end states computed by the model), `probs` (probabilities presented, in order), `leftover`, `grads`, `after`;
+`{"short": true}` when the recording has too few draws. -/
+def cdStepOp (j : Json) : R Json := do
+  let kind ← jStr (← fld j "kind")
+  let n ← jNat (← fld j "n"); let h ← jNat (← fld j "h")
+  let k ← jNat (← fld j "k")
+  let lr ← jFloat (← fld j "lr")
+  let negRows ← Drv.C05.parseBitRows (← fld j "neg") n
+  let M := negRows.size
+  let neg : Fin M → Fin n → Bool := fun m => negRows[m.val]!
+  let draws := (← (← jArr (← fld j "draws")).mapM Drv.C05.jBit).toList
+  let short := Json.mkObj [("short", .bool true)]
+  let common := fun (vk : Fin M → Fin n → Bool) (ps : List Float) (rest : List Bool) =>
+    [("vk", Drv.C05.bitMatOut vk), ("probs", fListOut ps), ("leftover", nOut rest.length)]
+  if kind == "pos" then
+    let am ← parseRBM (← fld j "am") n h
+    let rows ← parseRows (← fld j "rows") n
+    let B := rows.size
+    match (cdStepPos lr am k (fun s : Fin B => rows[s.val]!) neg).run draws with
+    | none => return short
+    | some (r, ps, rest) =>
+      return Json.mkObj (common r.1 ps rest ++
+        [("grads", .arr #[slicesOut (rbmParamGrads r.2.1)]), ("after", .arr #[fListOut r.2.2.flatten])])
+  else if kind == "cplx" then
+    let am ← parseRBM (← fld j "am") n h
+    let ph ← parseRBM (← fld j "ph") n h
+    let dict ← Drv.C03.parseDict (← fld j "dict")
+    let D ← Drv.C03.parseSamples (← fld j "samples") n
+    match (cdStepCplx lr am ph dict D k neg).run draws with
+    | none => return short
+    | some (r, ps, rest) =>
+      return Json.mkObj (common r.1 ps rest ++
+        [("grads", .arr #[slicesOut (rbmParamGrads r.2.1.1), slicesOut (rbmParamGrads r.2.1.2)]),
+         ("after", .arr #[fListOut r.2.2.1.flatten, fListOut r.2.2.2.flatten])])
+  else
+    let a ← jNat (← fld j "a")
+    let am ← parsePRBM (← fld j "am") n h a
+    let ph ← parsePRBM (← fld j "ph") n h a
+    let dict ← Drv.C03.parseDict (← fld j "dict")
+    let eps ← jFloat (← fld j "eps")
+    let D ← Drv.C03.parseSamples (← fld j "samples") n
+    match (cdStepDM lr eps am ph dict D k neg).run draws with
+    | none => return short
+    | some (r, ps, rest) =>
+      return Json.mkObj (common r.1 ps rest ++
+        [("grads", .arr #[slicesOut (prbmParamGrads r.2.1.1), slicesOut (prbmParamGrads r.2.1.2)]),
+         ("after", .arr #[fListOut r.2.2.1.flatten, fListOut r.2.2.2.flatten])])
+
+def parseVk (j : Json) (n : Nat) : R (Σ M : Nat, Fin M → Fin n → Float) := do
+  let vkRows ← parseRows j n
+  return ⟨vkRows.size, fun m => vkRows[m.val]!⟩
+
+/-- materialise a function-valued parameter record into arrays (extensionally the identity): without it the parameters after
+`t` updates would be `t` nested closures and every read would re-evaluate all earlier gradients -/
+def reifyRBM {n h : Nat} (r : RBM Float n h) : RBM Float n h :=
+  let W := Array.ofFn fun i : Fin h => Array.ofFn fun j : Fin n => r.W i j
+  let b := Array.ofFn r.b
+  let c := Array.ofFn r.c
+  ⟨fun i j => (W[i.val]!)[j.val]!, fun j => b[j.val]!, fun i => c[i.val]!⟩
+
+def reifyPRBM {n h a : Nat} (r : PRBM Float n h a) : PRBM Float n h a :=
+  let W := Array.ofFn fun i : Fin h => Array.ofFn fun j : Fin n => r.W i j
+  let U := Array.ofFn fun k : Fin a => Array.ofFn fun j : Fin n => r.U k j
+  let b := Array.ofFn r.b
+  let c := Array.ofFn r.c
+  let d := Array.ofFn r.d
+  ⟨fun i j => (W[i.val]!)[j.val]!, fun k j => (U[k.val]!)[j.val]!, fun j => b[j.val]!, fun i => c[i.val]!, fun k => d[k.val]!⟩
+
+/-- scheduler of a `c06.run` request: absent/null = none, else `StepLR(step_size, gamma)` -/
+def parseSched (j : Json) : R (Nat → Float → Float) := do
+  match fldOpt j "sched" with
+  | none => return noSched
+  | some sj =>
+    let gamma ← jFloat (← fld sj "gamma")
+    let step ← jNat (← fld sj "step_size")
+    return stepLRNext gamma step
+
+/-- op `c06.run`: a whole `fit` call from the INITIAL parameters: `fitTracePos/Cplx/DM` (fold of plain-SGD updates over the
+batches of every epoch, the learning rate of epoch `e` being the rate after `e` scheduler steps).
+in: kind, sizes, initial parameters, lr0, sched, epochs = [[batch]], batch = {rows | samples, vk}.
+out: `trace` = parameters after every batch (per network, flat), `lrs` = learning rate in force at every batch.
+The fold is the model's `foldTrace` over the model's `tagEpochs` with the model's `updPos/updCplx/updDM`; the parameters are
+materialised into arrays after every update (`reify…`, extensionally the identity, so this IS `fitTracePos/Cplx/DM`). -/
+def runOp (j : Json) : R Json := do
+  let kind ← jStr (← fld j "kind")
+  let n ← jNat (← fld j "n"); let h ← jNat (← fld j "h")
+  let lr0 ← jFloat (← fld j "lr0")
+  let next ← parseSched j
+  let epochsJ ← jArr (← fld j "epochs")
+  if kind == "pos" then
+    let am ← parseRBM (← fld j "am") n h
+    let epochs ← epochsJ.toList.mapM fun ej => do
+      (← jArr ej).toList.mapM fun bj => do
+        let rows ← parseRows (← fld bj "rows") n
+        let vk ← parseVk (← fld bj "vk") n
+        let pb : PosBatch Float n := (⟨rows.size, fun s => rows[s.val]!⟩, vk)
+        return pb
+    let tr := foldTrace (fun p b => reifyRBM (updPos p b)) am (tagEpochs next lr0 0 epochs)
+    return Json.mkObj [("trace", .arr (tr.toArray.map fun p => .arr #[fListOut p.flatten])),
+      ("lrs", fListOut ((tagEpochs next lr0 0 epochs).map (·.1)))]
+  else
+    let dict ← Drv.C03.parseDict (← fld j "dict")
+    let epochs ← epochsJ.toList.mapM fun ej => do
+      (← jArr ej).toList.mapM fun bj => do
+        let D ← Drv.C03.parseSamples (← fld bj "samples") n
+        let vk ← parseVk (← fld bj "vk") n
+        let sb : SmpBatch Float n := (D, vk)
+        return sb
+    let lrs := fListOut ((tagEpochs next lr0 0 epochs).map (·.1))
+    if kind == "cplx" then
+      let am ← parseRBM (← fld j "am") n h
+      let ph ← parseRBM (← fld j "ph") n h
+      let tr := foldTrace (fun p b => let q := updCplx dict p b; (reifyRBM q.1, reifyRBM q.2)) (am, ph) (tagEpochs next lr0 0 epochs)
+      return Json.mkObj [("trace", .arr (tr.toArray.map fun p => .arr #[fListOut p.1.flatten, fListOut p.2.flatten])), ("lrs", lrs)]
+    else
+      let a ← jNat (← fld j "a")
+      let am ← parsePRBM (← fld j "am") n h a
+      let ph ← parsePRBM (← fld j "ph") n h a
+      let eps ← jFloat (← fld j "eps")
+      let tr := foldTrace (fun p b => let q := updDM dict eps p b; (reifyPRBM q.1, reifyPRBM q.2)) (am, ph) (tagEpochs next lr0 0 epochs)
+      return Json.mkObj [("trace", .arr (tr.toArray.map fun p => .arr #[fListOut p.1.flatten, fListOut p.2.flatten])), ("lrs", lrs)]
+
 def handle (op : String) (j : Json) : Option (R Json) :=
   match op with
   | "c06.step" => some (stepOp j)
+  | "c06.cdstep" => some (cdStepOp j)
+  | "c06.run" => some (runOp j)
   | _ => none
 
 end Drv.C06
